@@ -284,7 +284,9 @@ func cmdCheck(eng *Engine, args []string) int {
 	sort.Strings(fnNames)
 	var as []string
 	for a := range assumed {
-		if strings.HasPrefix(a, "ASSUME ") {
+		if strings.HasPrefix(a, "GLOBALINV ") {
+			as = append(as, "package-level variable initialised once and never reassigned: "+strings.TrimSpace(a[10:]))
+		} else if strings.HasPrefix(a, "ASSUME ") {
 			as = append(as, "unchecked assume clause of "+a[7:])
 		} else {
 			as = append(as, "assumed contract of external function "+a)
